@@ -10,9 +10,9 @@
     The three verdict theorems are dichotomies decided by proof search on the arithmetic read from the source today
     (flag [true]: the property clause for ALL files and requests; flag [false]: a concrete counterexample of the
     faithful model); the check reports the flags.  Theorems named _partial hold whatever the verdict. *)
-From Coq Require Import ZArith List Bool.
+From Coq Require Import ZArith QArith List Bool.
 Require Import SPP.Base.Rt SPP.Gen.Plan SPP.Gen.C18Pfits SPP.Model.Stream SPP.Model.Plan SPP.Model.C06_pipe SPP.Model.C18_PFits SPP.Model.C18_reduce
-               SPP.Proofs.C01_plan SPP.Proofs.C06_reduce SPP.Proofs.C18_pfits SPP.Proofs.C18_reduce.
+               SPP.Proofs.C01_plan SPP.Proofs.C06_reduce SPP.Proofs.C18_pfits SPP.Proofs.C18_reduce SPP.Proofs.C18_cards.
 Import ListNotations.
 Open Scope Z_scope.
 
@@ -139,6 +139,65 @@ Theorem C18_labels_descending_partial : forall f0 df nchan c, df < 0 -> 0 <= c <
 Proof. exact label_descending. Qed.
 Print Assumptions C18_labels_descending_partial.
 
+(** ** optional arguments of read_plan *)
+(** nsamps = None: every sample from [start] to the end of the file exactly once, in order, for every gulp and skipback of either sign *)
+Theorem C18_plan_default_nsamps : PlanSpec -> forall F g0 start s0, wf F -> 0 <= start < p_nstot F -> 1 <= g0 -> Z.abs s0 < Z.min (p_nstot F - start) g0 ->
+  exists bl, pf_run_plan_default F g0 start s0 = TOk bl /\
+    stitch (Z.abs s0 * p_nchan F) bl = concat (pyslice (all_rows F) start (p_nstot F)) /\
+    Forall (block_ok (p_nchan F) g0) bl /\
+    map (fun b => snd (fst b)) bl = zrange (len (map (fun _ => 0) bl)).
+Proof. exact plan_default_stitch. Qed.
+Print Assumptions C18_plan_default_nsamps.
+
+(** a negative skipback is the same request as its magnitude *)
+Theorem C18_plan_skipback_sign : forall F g0 start nsamps s0, pf_run_plan F g0 start nsamps (- s0) = pf_run_plan F g0 start nsamps s0.
+Proof. exact plan_skipback_sign_all. Qed.
+Print Assumptions C18_plan_skipback_sign.
+
+(** ** optional cards: no NSTOT card = every sample of the table (the whole-file read is the whole table); no ZERO_OFF card = zero offset 0 *)
+Theorem C18_no_nstot_card : forall F, wf F -> p_nstot F = hdr_nstot None (p_nsblk F) (p_nsub F) -> whole F = ROk (all_rows F).
+Proof. exact no_nstot_whole. Qed.
+Print Assumptions C18_no_nstot_card.
+Theorem C18_no_zero_off_card : forall raw s o w, sub_value raw (hdr_zero_off None) s o w = (raw * s + o) * w.
+Proof. exact no_zero_off. Qed.
+Print Assumptions C18_no_zero_off_card.
+Theorem C18_cards_present : forall n z nsblk nsub, hdr_nstot (Some n) nsblk nsub = n /\ hdr_zero_off (Some z) = z.
+Proof. exact cards_present. Qed.
+Print Assumptions C18_cards_present.
+
+(** ** fractional ZERO_OFF = zn/dz, DAT_SCL = sn/ds, DAT_OFFS = on/(dz*ds), DAT_WTS = wn/dw (any rationals have this form): the value the
+    rational decode delivers for (row, sample, channel) is exactly 1/(dz*ds*dw) of the value the integer file [scaled_file] (samples times
+    dz, the numerators as scales / offsets / weights, same layout) delivers there -- so C18_whole_file, C18_element, the read_block and
+    read_plan verdicts and the reduction theorems, which hold for every integer file, say where each fractional value lands *)
+Theorem C18_fractional_element : forall F V dz ds dw zn sn on wn isub t c, dz <> 0 -> ds <> 0 -> dw <> 0 -> numerators V dz ds dw zn sn on wn ->
+  match pol_elem_q F V (inject_Z (p_csc F)) isub t c,
+        pol_value (p_state F) (p_csc F) (fun p => sub_elem (scaled_file F dz zn sn on wn) isub t p c) with
+  | Some xq, Some x => (xq * inject_Z (dz * ds * dw) == inject_Z x)%Q /\ x = pol_elem (scaled_file F dz zn sn on wn) isub t c
+  | None, None => True
+  | _, _ => False
+  end.
+Proof. exact fractional_element. Qed.
+Print Assumptions C18_fractional_element.
+Theorem C18_fractional_layout : forall F dz zn sn on wn, wf F -> wf (scaled_file F dz zn sn on wn).
+Proof. exact scaled_wf. Qed.
+Print Assumptions C18_fractional_layout.
+
+(** ** POL_TYPE: the spellings whose two polarisations are summed (times the factor), those whose first polarisation is taken, and
+    for a spelling the table does not know the state follows NPOL *)
+Theorem C18_pol_type_sum : forall card npol csc v, In card sum_spellings ->
+  exists s, poln_state_of card npol = Some s /\ pol_value s csc v = Some ((v 0 + v 1) * csc).
+Proof. exact pol_spellings_sum. Qed.
+Print Assumptions C18_pol_type_sum.
+Theorem C18_pol_type_first : forall card npol csc v, In card first_spellings ->
+  exists s, poln_state_of card npol = Some s /\ pol_value s csc v = Some (v 0).
+Proof. exact pol_spellings_first. Qed.
+Print Assumptions C18_pol_type_first.
+Theorem C18_pol_type_unknown : forall card npol csc v, ~ In card (map fst pol_table) ->
+  (npol = 1 \/ npol = 4 -> exists s, poln_state_of card npol = Some s /\ pol_value s csc v = Some (v 0)) /\
+  (npol = 2 -> exists s, poln_state_of card npol = Some s /\ pol_value s csc v = Some ((v 0 + v 1) * csc)).
+Proof. exact pol_spellings_other. Qed.
+Print Assumptions C18_pol_type_unknown.
+
 (** ** non-vacuity *)
 (** a readable file (2 rows x 2 samples x 4 polarisations x 2 descending channels, Stokes): the hypotheses are satisfiable;
     an aligned request starting on the second row; one block from the start; the same file with ascending channels is
@@ -164,3 +223,22 @@ Example C18_single_pol : file_status wit_file_1pol = if keeps_unit_axes then Non
 Proof. exact one_pol_status. Qed.
 Example C18_two_pol : file_status wit_file_2pol = None \/ file_status wit_file_2pol = Some PUnbound.
 Proof. exact two_pol_status. Qed.
+
+(** ** non-vacuity of the theorems on optional arguments, optional cards, fractional values and POL_TYPE *)
+Require Coq.Strings.String.
+Import String.
+(** the new hypotheses are satisfiable: a default-nsamps plan from inside a row with a negative skipback; a file without NSTOT / ZERO_OFF
+    cards; fractional values ZERO_OFF 7.5, DAT_SCL 0.25, DAT_OFFS -3.5, DAT_WTS 0.5 with their numerators; table spellings *)
+Example C18_example_options :
+  (wf wit_file /\ 0 <= 1 < p_nstot wit_file /\ Z.abs (-1) < Z.min (p_nstot wit_file - 1) 3) /\
+  pf_run_plan_default wit_file 3 1 (-1) = TOk [(3, 0, [10; 11; 20; 21; 30; 31])] /\
+  (wf wit_nostot /\ p_nstot wit_nostot = hdr_nstot None (p_nsblk wit_nostot) (p_nsub wit_nostot)) /\
+  (numerators wit_qv 2 4 2 15 (fun _ _ => 1) (fun _ _ => -28) (fun _ _ => 1) /\
+   pol_elem_q wit_file wit_qv 1 1 0 1 = Some (sub_value_q 21 (15 # 2) (1 # 4) ((-7) # 2) (1 # 2))) /\
+  (In "LLRR"%string sum_spellings /\ In "INTEN"%string first_spellings /\ ~ In "IQUV"%string (map fst pol_table) /\
+   poln_state_of "IQUV" 4 = Some 1 /\ poln_state_of "LLRRCRCI" 4 = Some 0).
+Proof. split; [split; [exact wit_wf|exact wit_default_hyp]|]. split; [vm_compute; reflexivity|].
+  split; [split; [exact wit_nostot_wf|reflexivity]|]. split; [split; [exact wit_numerators|reflexivity]|].
+  split; [cbn; tauto|]. split; [cbn; tauto|]. split; [|split; reflexivity].
+  cbn. intros H. repeat (destruct H as [H|H]; [discriminate H|]). exact H. Qed.
+
